@@ -6,14 +6,16 @@ RULE = ("MSS boundary values + uniform, both IP versions, MTU 41..65535, base op
         "types incl. invalid and fragments, MTU databases with duplicates and misses; non-trivial = fingerprint accepted the packet; "
         "the impersonated packet is re-fingerprinted and all non-option fields compared")
 GEN_TIE = ['mtu']     # gates, from_mss and mtu_signatures_match are also TRANSLATED from /repo's source on every run and proved equal to the model
-ASSUMPTIONS = ["sniffed packets: (fragment, type, version, MSS) come from the model's own extractor on the bytes; constructed packets and link-layer bases: "
-               "fragment status and type from the input's header bits, version and MSS as the implementation extracted them (C03's tie)"]
+ASSUMPTIONS = ["(fragment, type, version, MSS) given to the fingerprint model come from the model's own extractor applied to the IP datagram bytes of the base packet "
+               "(as Scapy serialises it); packets Scapy cannot dissect (KF-scapy-ao) are skipped"]
 EXHAUSTIVE = {"MSS 1..2000 x both versions through fingerprint_mtu (thorough: 1..65535)": True}
 MSS_VALUES = [1, 2, 99, 100, 536, 1220, 1360, 1400, 1440, 1452, 1460, 8960, 65494, 65495, 65496, 65534, 65535]
 
 
 def rand_opts(R):
     others = [["NOP", None], ["WScale", R.choice([0, 7, 14])], ["SAckOK", ""], ["Timestamp", [R.randrange(2 ** 32), 0]], ["NOP", None], ["EOL", None]]
+    if R.random() < 0.15:      # a known option with a non-standard length (Scapy takes raw bytes as the value): flagged as bad, the walk goes on
+        others[R.choice([1, 2, 3])] = R.choice([["WScale", "hex:0700"], ["SAckOK", "hex:0000"], ["Timestamp", "hex:00000001"], [254, "hex:aabb"]])
     k = R.randrange(7)
     mss = ["MSS", R.choice(MSS_VALUES + [R.randrange(1, 65536)])]
     if k == 0:
@@ -96,9 +98,10 @@ def model_cases(cases, impl_res, run_model):
     from harness import findings
     lines, where = [], []
     out = [dict() for _ in cases]
-    # sniffed packets: the verified extractor reads (fragment, type, version, MSS) from the bytes; nothing is taken from the implementation
-    ex_idx = [i for i, c in enumerate(cases) if c["mode"] == "sniffed" and not c.get("link")]
-    ex = dict(zip(ex_idx, run_model(["extract %d 0 %s" % (W.full(cases[i]["spec"])["v"], W.build(cases[i]["spec"]).hex()) for i in ex_idx])))
+    # the verified extractor reads (fragment, type, version, MSS) from the IP datagram's bytes (as Scapy serialises the base packet);
+    # nothing pyp0f extracted is given to the model
+    ex_idx = [i for i, ir in enumerate(impl_res) if isinstance(ir, dict) and ir.get("raw_ip")]
+    ex = dict(zip(ex_idx, run_model(["extract %d 0 %s" % (impl_res[i]["ver"], impl_res[i]["raw_ip"]) for i in ex_idx])))
     for i, (c, ir) in enumerate(zip(cases, impl_res)):
         if not isinstance(ir, dict) or "before" not in ir:
             out[i] = {"skipped": True}
@@ -108,7 +111,8 @@ def model_cases(cases, impl_res, run_model):
         else:
             recs = db_lines(c["dbm"])[1]
             dbs = "%d %s" % (len(recs), " ".join("%d %d" % r for r in recs)) if recs else "0"
-        if i in ex and not ("nogate" in ir and findings.scapy_ao_short(bytes.fromhex(W.full(c["spec"])["opts"]))):
+        ao = "nogate" in ir and findings.scapy_ao_short(bytes.fromhex(W.full(c["spec"])["opts"])) if c["mode"] == "sniffed" else False
+        if i in ex and not ao:
             e = ex[i]
             if isinstance(e, dict) and "ok" in e:
                 k = e["ok"]
@@ -116,18 +120,6 @@ def model_cases(cases, impl_res, run_model):
                 where.append((i, "fp"))
             else:
                 out[i]["fp"] = {"err": "PacketError"}
-        elif "gate" in ir:
-            g = ir["gate"]
-            # constructed packets / link-layer bases: fragment status and segment type from the INPUT, version and MSS as extracted
-            if c["mode"] == "sniffed":
-                sp = W.full(c["spec"])
-                frag = bool(sp["v"] == 4 and (sp["mf"] or sp["frag"]))
-                ty = sp["flags"] & 0x17
-            else:
-                frag = bool(c["v"] == 4 and c.get("frag"))
-                ty = c["flags"] & 0x17
-            lines.append("fp_mtu %s %d %d %d %d" % (dbs, int(frag), ty, g["ver"], g["mss"]))
-            where.append((i, "fp"))
         ab, _ = abstract(ir["before"])
         lines.append("imp_mtu %d %d %d %s" % (c["m"], ir["ver"], len(ab), " ".join("%d %d" % x for x in ab)))
         where.append((i, "imp"))
@@ -182,7 +174,7 @@ def impl_init():
             base = U.scapy_from_spec(c["spec"])
         else:
             ip = IP(frag=5 if c.get("frag") else 0) if c["v"] == 4 else IPv6()
-            opts = [(n, tuple(v) if isinstance(v, list) else v) for n, v in c["opts"]]
+            opts = [(n, tuple(v) if isinstance(v, list) else (bytes.fromhex(v[4:]) if isinstance(v, str) and v.startswith("hex:") else v)) for n, v in c["opts"]]
             base = ip / TCP(flags=c["flags"], seq=1, options=opts)
         if c.get("link"):
             from scapy.layers.l2 import CookedLinux, Dot1Q, Ether
@@ -204,9 +196,16 @@ def impl_init():
         if TCPL is None:
             return dict(out, no_tcp=True)
         out["ver"] = base.version
+        ipl = base.getlayer("IP") or base.getlayer("IPv6")
+        out["raw_ip"] = bytes(ipl).hex()
+        try:      # does Scapy re-serialise this option area to the bytes it was dissected from? (not for hostile option areas)
+            out["opts_stable"] = c["mode"] != "sniffed" or TCPL.get_field("options").i2m(TCPL, TCPL.options) == bytes.fromhex(W.full(c["spec"])["opts"])
+        except Exception:
+            out["opts_stable"] = False
         out["before"] = canon(TCPL.options)
         out["fields_before"] = fields(base)
-        work = base.copy()
+        # half of the time the packet is impersonated IN PLACE (no copy): the object handed back is then re-fingerprinted as it is
+        work = base.copy() if c["m"] % 2 else base
         res = impersonate_mtu(work, raw_signature=str(c["m"]))
         out["same_object"] = res is work
         out["after"] = canon(res.getlayer("TCP").options)
@@ -268,7 +267,10 @@ def judge(c, ir, mr):
         return {"kind": "impersonate_mtu changed a header field other than the TCP options", "why": "%s -> %s" % (ir["fields_before"], ir["fields_after"])}
     g = ir.get("gate")
     hdr = 40 if ir["ver"] == 4 else 60
-    if g and not g["frag"] and g["type"] in (2, 0x12) and 0 < c["m"] - hdr <= 65535 and c["mode"] == "built":
+    # a packet dissected from the wire keeps its explicit length fields: the round trip is only meaningful when the option area keeps
+    # its size, i.e. the base already had an MSS option that is replaced in place
+    same_size = c["mode"] == "built" or (ir.get("opts_stable") and any(x[0] == "MSS" for x in ir["before"]) and len(ir["before"]) == len(ir["after"]))
+    if g and not g["frag"] and g["type"] in (2, 0x12) and 0 < c["m"] - hdr <= 65535 and same_size:
         if ir["refp"].get("ok", [None])[0] != c["m"]:
             return {"kind": "MTU fingerprint of the impersonated packet is not m", "why": "m=%d refp=%s" % (c["m"], ir["refp"]), "judged_by": "C08_roundtrip"}
     return None
